@@ -32,19 +32,35 @@ def run_shards(func, shards, jobs=None, seed=None, report=None, maxtasksperchild
         shards = shards[k:] + shards[:k]
     if jobs <= 1 or len(shards) <= 1:
         results = map(_call, [(func, s) for s in shards])
-        return _collect(results, report)
+        try:
+            return _collect(results, report)
+        except _WorkerFailed as e:
+            print("FRAMEWORK-ERROR: worker failed\n" + str(e), file=sys.stderr, flush=True)
+            sys.exit(2)
     ctx = mp.get_context("fork")
-    with ctx.Pool(min(jobs, len(shards)), maxtasksperchild=maxtasksperchild) as pool:
+    pool = ctx.Pool(min(jobs, len(shards)), maxtasksperchild=maxtasksperchild)
+    try:
         results = pool.imap_unordered(_call, [(func, s) for s in shards], chunksize=1)
-        return _collect(results, report)
+        out = _collect(results, report)
+        pool.close()
+        pool.join()
+        return out
+    except _WorkerFailed as e:
+        pool.terminate()
+        pool.join()
+        sys.stdout.flush()
+        print("FRAMEWORK-ERROR: worker failed\n" + str(e), file=sys.stderr, flush=True)
+        sys.exit(2)
+
+
+class _WorkerFailed(Exception):
+    pass
 
 
 def _collect(results, report):
     for status, payload in results:
         if status == "err":
-            sys.stdout.flush()
-            print("FRAMEWORK-ERROR: worker failed\n" + payload, file=sys.stderr, flush=True)
-            os._exit(2)
+            raise _WorkerFailed(payload)
         report.merge(payload)
     return report
 
